@@ -13,7 +13,8 @@ Import ListNotations.
 Local Open Scope Z_scope.
 
 Record oprec := { o_push : bool; o_val : Z; o_lp : bool; o_got : Z; o_excuse : bool;
-                  o_wait : bool (* PushWait / PopWait: the loop retries until its attempt succeeds *) }.
+                  o_wait : bool (* PushWait / PopWait: the loop retries until its attempt succeeds *);
+                  o_left : Z (* further tries a timed wait may still make; -1 = unbounded *) }.
 Record tstate := { t_next : nat;                 (* index of the next operation to start *)
                    t_cur : option oprec;         (* operation in flight *)
                    t_done : list oprec }.        (* finished operations, reversed *)
@@ -23,7 +24,7 @@ Fixpoint updn {A} (l : list A) (i : nat) (x : A) : list A :=
   match l, i with [], _ => [] | _ :: t, O => x :: t | h :: t, S j => h :: updn t j x end.
 
 Definition set_excuse (r : oprec) : oprec :=
-  {| o_push := o_push r; o_val := o_val r; o_lp := o_lp r; o_got := o_got r; o_excuse := true; o_wait := o_wait r |}.
+  {| o_push := o_push r; o_val := o_val r; o_lp := o_lp r; o_got := o_got r; o_excuse := true; o_wait := o_wait r; o_left := o_left r |}.
 (* observers (Len = -1, IsEmpty = -2, IsFull = -3, kept in o_val) have no boundary excuse *)
 Definition boundary_now (cap : Z) (q : list Z) (r : oprec) : bool :=
   if o_val r <? 0 then false else
@@ -56,15 +57,25 @@ Definition j_start (cap : Z) (progs : list (list Z)) (s : jstate) (i : nat) : js
   | None => {| j_q := j_q s; j_ths := j_ths s; j_ok := false |}
   | Some t0 =>
       (* a start marker while a PushWait / PopWait has not succeeded yet is the next attempt of the same call *)
-      if match t_cur t0 with Some r => o_wait r && negb (o_lp r) | None => false end then s else
+      if match t_cur t0 with Some r => o_wait r && negb (o_lp r) && negb (o_left r =? 0) | None => false end then
+        match t_cur t0 with
+        | Some r =>
+            let r' := {| o_push := o_push r; o_val := o_val r; o_lp := false; o_got := o_got r; o_excuse := o_excuse r;
+                         o_wait := true; o_left := if o_left r <? 0 then -1 else o_left r - 1 |} in
+            {| j_q := j_q s; j_ths := updn (j_ths s) i {| t_next := t_next t0; t_cur := Some r'; t_done := t_done t0 |}; j_ok := j_ok s |}
+        | None => s
+        end
+      else
       let t := finish t0 in
       match nth_error (nth i progs []) (t_next t) with
       | None => {| j_q := j_q s; j_ths := updn (j_ths s) i t; j_ok := false |}      (* more starts than operations *)
       | Some o =>
           let others := existsb in_flight (updn (j_ths s) i t) in
-          let wait := (1000000 <=? o) || (o =? -10) in
-          let v := if 1000000 <=? o then o - 1000000 else if o =? -10 then 0 else o in
-          let r := {| o_push := 0 <? v; o_val := v; o_lp := false; o_got := obs_exact cap (j_q s) v; o_excuse := others; o_wait := wait |} in
+          let wait := (1000000 <=? o) || (o =? -10) || (o <=? -100) in
+          let v := if 2000000 <=? o then (o - 2000000) mod 10000 else if 1000000 <=? o then o - 1000000
+                   else if (o =? -10) || (o <=? -100) then 0 else o in
+          let r := {| o_push := 0 <? v; o_val := v; o_lp := false; o_got := obs_exact cap (j_q s) v; o_excuse := others; o_wait := wait;
+                      o_left := if o <=? -100 then - o - 100 else if 2000000 <=? o then (o - 2000000) / 10000 else -1 |} in
           let t' := {| t_next := S (t_next t); t_cur := Some r; t_done := t_done t |} in
           let ths := updn (j_ths s) i t' in
           let ths := if others then map excuse_all ths else ths in
@@ -82,14 +93,14 @@ Definition j_lp (cap : Z) (s : jstate) (i : nat) (push : bool) : jstate :=
           else if push then
             let ok := Z.of_nat (length (j_q s)) <? cap in
             let q' := j_q s ++ [o_val r] in
-            let r' := {| o_push := true; o_val := o_val r; o_lp := true; o_got := 0; o_excuse := o_excuse r; o_wait := o_wait r |} in
+            let r' := {| o_push := true; o_val := o_val r; o_lp := true; o_got := 0; o_excuse := o_excuse r; o_wait := o_wait r; o_left := o_left r |} in
             {| j_q := q'; j_ths := map (look cap q') (updn (j_ths s) i {| t_next := t_next t; t_cur := Some r'; t_done := t_done t |});
                j_ok := j_ok s && ok |}
           else
             match j_q s with
             | [] => {| j_q := []; j_ths := j_ths s; j_ok := false |}
             | x :: q' =>
-                let r' := {| o_push := false; o_val := 0; o_lp := true; o_got := x; o_excuse := o_excuse r; o_wait := o_wait r |} in
+                let r' := {| o_push := false; o_val := 0; o_lp := true; o_got := x; o_excuse := o_excuse r; o_wait := o_wait r; o_left := o_left r |} in
                 {| j_q := q'; j_ths := map (look cap q') (updn (j_ths s) i {| t_next := t_next t; t_cur := Some r'; t_done := t_done t |});
                    j_ok := j_ok s |}
             end
@@ -103,9 +114,9 @@ Fixpoint check_results (cap : Z) (recs : list oprec) (res : list Z) : bool :=
   match recs, res with
   | [], [] => true
   | r :: recs', 1 :: b :: res' =>
-      o_push r && Bool.eqb (negb (b =? 0)) (o_lp r) && (o_lp r || o_excuse r) && check_results cap recs' res'
+      o_push r && Bool.eqb (negb (b =? 0)) (o_lp r) && (o_lp r || o_excuse r || o_wait r) && check_results cap recs' res'
   | r :: recs', 2 :: ok :: v :: res' =>
-      negb (o_push r) && Bool.eqb (negb (ok =? 0)) (o_lp r) && (if o_lp r then v =? o_got r else (v =? 0) && o_excuse r)
+      negb (o_push r) && Bool.eqb (negb (ok =? 0)) (o_lp r) && (if o_lp r then v =? o_got r else (v =? 0) && (o_excuse r || o_wait r))
       && check_results cap recs' res'
   | r :: recs', 3 :: z :: res' =>
       (* an observer that ran alone is exact; one that overlapped other operations stays within its range *)
